@@ -262,14 +262,27 @@ def check(index, ctx):
         # ------------------------------------------------------------------------------------------------ R3
         P2, rs = _pipe.runs(index)
         n_cmp = 0
+        chk = index.find_function(f"{T}.tensor_dict.TensorDict.check_keys_are")
+        chk_q = chk.qualname if chk is not None else "check_keys_are"
         for run in rs:
             for res in _pipe.main_paths(run):
                 for e in res.events:
+                    # a key check is "decided equal" when the engine needed no case split inside it: an open decision there means the
+                    # sets could differ as far as the analysis can tell
                     if e["kind"] == "set_compare" and e["function"].endswith("check_keys_are"):
                         n_cmp += 1
-                        ctx.require(e["equal"] is True, "R3", f"{run.label}: runtime key check {e['left_atoms']} vs {e['right_atoms']}" if e["equal"] is True else
-                                    f"{run.entry}: a stage's dictionary has keys {e['right'][:60]} but the next transform requires {e['left'][:60]}",
-                                    "decided equal", "key sets at a runtime check of the real pipeline are not provably equal: a stage returns other keys than it declares", e["loc"], nontrivial=True)
+                        if e["equal"] is True:
+                            ctx.ok("R3", f"{run.label}: runtime key check {e['left_atoms']} vs {e['right_atoms']}", "decided equal", e["loc"])
+                        elif "Unk(" in e["left"] or "Unk(" in e["right"]:
+                            ctx.undecided("R3", f"{run.entry}: runtime key check", f"a key set could not be determined: {e['right'][:80]} vs {e['left'][:80]}", e["loc"])
+                        else:
+                            ctx.violated("R3", f"{run.entry}: a stage's dictionary has keys {e['right'][:60]} but the next transform requires {e['left'][:60]}",
+                                         "key sets at a runtime check of the real pipeline are not provably equal: a stage returns other keys than it declares", e["loc"])
+                    elif e["kind"] == "decision" and not e.get("forced") and e["function"] == chk_q:
+                        n_cmp += 1
+                        cm = [x for x in res.events if x["kind"] == "set_compare" and x["function"] == chk_q and x["loc"] == e["loc"]]
+                        if not cm:
+                            ctx.undecided("R3", f"{run.entry}: runtime key check `{e['test']}`", "the comparison of the key sets is written in a form whose outcome the engine cannot decide", e["loc"])
         ctx.floor("runtime key checks decided in the real pipelines", n_cmp, 20)
         _pipe.common_evidence(ctx, index)
     except AnalysisError as e:
